@@ -11,6 +11,9 @@ History = list of ops (JSON):
   ["mm_of", k, data]          model_matrix(<result of call k>, D[data], context=CTX, drop_rows=S)
   ["joint", [k1, k2], data]   ModelSpecs(p0=<spec of call k1>, p1=<spec of call k2>).get_model_matrix(D[data], ...)
 spec: formula string, or list / dict of strings (mutable formula specs).
+Any op may carry a trailing "shadow": that call gets a context in which the names of built-in stateful
+transforms (`center`, `scale`) are bound to plain user functions (which legitimately shadow the built-ins for
+that call); all other calls of the history get the ordinary context.
 """
 import copy
 import random as _random
@@ -65,6 +68,22 @@ def make_frames():
 
 def _double(x):
     return x * 2.0
+
+
+def _center_plain(v):
+    return v - 1.0
+
+
+def _scale_plain(v):
+    return v / 2.0
+
+
+def make_shadow_context():
+    """The ordinary context plus plain functions under the names of built-in stateful transforms."""
+    ctx = make_context()
+    ctx["center"] = _center_plain
+    ctx["scale"] = _scale_plain
+    return ctx
 
 
 def make_context():
@@ -192,6 +211,8 @@ def run_history(ops):
     D_before = {k: copy.deepcopy(v) for k, v in D.items()}
     CTX = make_context()
     CTX_before = {k: (v if callable(v) else copy.deepcopy(v)) for k, v in CTX.items()}
+    SHADOW = make_shadow_context()
+    SHADOW_before = {k: (v if callable(v) else copy.deepcopy(v)) for k, v in SHADOW.items()}
     specs_live, specs_before = {}, {}
     shared_F, shared_F_before, shared_S = {}, {}, {}
     results, calls, mutations = [], [], []
@@ -205,18 +226,22 @@ def run_history(ops):
 
     for i, op in enumerate(ops):
         S = set()
+        shadow = op[-1] == "shadow"
+        if shadow:
+            op = op[:-1]
+        CALL_CTX = SHADOW if shadow else CTX
         rng_before = _rng_state()
         try:
             kind = op[0]
             if kind == "mm":
                 _, sp = live_spec(op[1])
-                res = model_matrix(sp, D[op[2]], output=op[3], context=CTX, drop_rows=S)
+                res = model_matrix(sp, D[op[2]], output=op[3], context=CALL_CTX, drop_rows=S)
             elif kind == "Fmm":
                 key, sp = live_spec(op[1])
                 if key not in shared_F:
                     shared_F[key] = Formula(sp)
                     shared_F_before[key] = _formula_state(shared_F[key])
-                res = shared_F[key].get_model_matrix(D[op[2]], output=op[3], context=CTX, drop_rows=S)
+                res = shared_F[key].get_model_matrix(D[op[2]], output=op[3], context=CALL_CTX, drop_rows=S)
             elif kind == "uspec":
                 key, sp = live_spec(op[1])
                 if (key, op[3]) not in shared_S:
@@ -225,12 +250,12 @@ def run_history(ops):
                     held = shared_S[(key, op[3])]
                     shared_F[fkey] = held.formula if hasattr(held, "formula") else held._map(lambda ms: ms.formula)
                     shared_F_before[fkey] = _formula_state(shared_F[fkey])
-                res = shared_S[(key, op[3])].get_model_matrix(D[op[2]], context=CTX, drop_rows=S)
+                res = shared_S[(key, op[3])].get_model_matrix(D[op[2]], context=CALL_CTX, drop_rows=S)
             elif kind == "reuse":
                 prev = results[op[1]]
                 if isinstance(prev, BaseException):
                     raise RuntimeError("SKIP: the call this one depends on raised")
-                res = prev.model_spec.get_model_matrix(D[op[2]], context=CTX, drop_rows=S)
+                res = prev.model_spec.get_model_matrix(D[op[2]], context=CALL_CTX, drop_rows=S)
             elif kind == "joint":
                 # the specs obtained from earlier calls combined in ONE ModelSpecs and built jointly
                 prevs = [results[k] for k in op[1]]
@@ -239,12 +264,12 @@ def run_history(ops):
                 from formulaic import ModelSpecs
 
                 joint = ModelSpecs(**{"p%d" % j: pv.model_spec for j, pv in enumerate(prevs)})
-                res = joint.get_model_matrix(D[op[2]], context=CTX, drop_rows=S)
+                res = joint.get_model_matrix(D[op[2]], context=CALL_CTX, drop_rows=S)
             elif kind == "mm_of":
                 prev = results[op[1]]
                 if isinstance(prev, BaseException):
                     raise RuntimeError("SKIP: the call this one depends on raised")
-                res = model_matrix(prev, D[op[2]], context=CTX, drop_rows=S)
+                res = model_matrix(prev, D[op[2]], context=CALL_CTX, drop_rows=S)
             else:
                 raise SystemError(f"driver bug: unknown op {op!r}")
             results.append(res)
@@ -269,6 +294,10 @@ def run_history(ops):
         if d is not None:
             mutations.append({"what": "context", "after_call": i, "object": "context", "detail": d})
             CTX = make_context()
+        d = _ctx_equal(SHADOW, SHADOW_before)
+        if d is not None:
+            mutations.append({"what": "context", "after_call": i, "object": "context (shadowing)", "detail": d})
+            SHADOW = make_shadow_context()
         for key in specs_live:
             if specs_live[key] != specs_before[key] or type(specs_live[key]) is not type(specs_before[key]):
                 mutations.append({"what": "formula", "after_call": i, "object": key, "detail": f"spec object now {specs_live[key]!r}"})
